@@ -256,7 +256,7 @@ def k4_open(mir, rep):
         errv = ex.valid(p, disc(value) == 1)[0]
         if not maps:
             if not errv:
-                rep.bad("K4.open", "a failed open is returned as Err", {"kind": "open_err"})
+                rep.bad("K4.open", "a failed open is returned as Err, and no path returns an input without trying to map the opened file (its size or kind is not consulted: a FIFO is read like a file)", {"kind": "open_err"})
             return
         if not okv:
             rep.bad("K4.open", "after a successful open the result is Ok whether or not mmap works", {"kind": "open_ok"})
